@@ -1,7 +1,7 @@
 """C08 configuration for ./check (see lib/props.py)."""
 
 CFG = {
-    "modules": ["HumphreyModel.Props.C08"],
+    "modules": ["HumphreyModel.Props.C08", "HumphreyModel.Props.C08Restart"],
     "rule": "lifecycle scripts over {S start, e/p/b execute (returning / panicking / waiting on a barrier of N), "
             "h/x execute a HELD task (blocks until the caller opens the gate with o, then returns / panics: a task still "
             "running when the pool is stopped, started again or dropped), w wait until everything submitted so far has "
@@ -54,8 +54,11 @@ CFG = {
                      "the H3 event log is a linearisation of the run (acquisitions logged after, releases/sends/"
                      "spawns before the real operation, under one global mutex)"],
     "assumptions": ["one thread owns the pool (start/execute/stop/drop are sequential)",
-                    "THEOREMS: start is called at most once (the transition system has one run). Scripts that start the "
-                    "pool again are covered by testing only: executable spec predicates on the real pool's summary and log",
+                    "THEOREMS about panic recovery, N_can_run and drop_never_blocks are for one run (Model/Pool.lean). Scripts "
+                    "that start the pool again are covered by the several-runs system Model/PoolRestart.lean (start-again = the "
+                    "old run retired to the end state of Drop, per-run panicking sets) and the theorems of Props/C08Restart.lean; "
+                    "that system is tied to the code through the shared `step` (trace acceptance of one-run logs) and by reading "
+                    "`ThreadPool::start` for `retire`; restart logs themselves are judged by the executable spec predicates",
                     "scheduler: an enabled step is eventually taken (needed only to read termination as liveness)",
                     "the recovery thread is detached, not ended: it stays blocked on its channel for the life of the "
                     "process (as after stop() in the original code)"],
@@ -65,9 +68,13 @@ CFG = {
                   "Model/Pool.lean): exactly_once, at_most_N_running, N_can_run, panic_isolated, fifo_dequeue; every "
                   "step other than submit decreases a measure (termination); terminal_all_done; drop_never_blocks; "
                   "drop_without_stop_deadlocks_unrepaired for the code before the repair. The model is tied to the "
-                  "code by trace acceptance of real event logs. The theorems cover ONE run of the pool (start at most once); "
-                  "lifecycle scripts that start the pool again (restart, several restarts, started twice) are outside the "
-                  "model: they are run on the real pool and judged by the executable spec predicates only (testing level).",
+                  "code by trace acceptance of real event logs. Lifecycle scripts that start the pool again (any number of times, "
+                  "with or without stop in between) are covered by Model/PoolRestart.lean (every earlier run goes on next to the "
+                  "current one) and Props/C08Restart.lean: restart_exactly_once, restart_at_most_N, restart_fifo for EVERY run in "
+                  "every reachable state, restart_never_blocks, retired_step_decreases (left-over threads take finitely many "
+                  "steps), retired_all_done (a quiescent earlier run has run every task and all its workers have exited). Not "
+                  "proved for retired runs: the return to N usable workers (one-run theorem only). Restart logs are not replayed "
+                  "through the model (worker ids are reused): they are judged by the executable spec predicates (testing level).",
     "level_note": "Proof of the protocol; partial for OS-level liveness (the logs show only the schedules the OS and "
                   "the perturbation produced). Trusted: Lean kernel, Spec/Pool.lean, the std primitives' semantics as "
                   "modelled, the hook's linearisation argument, the harness.",
